@@ -219,6 +219,15 @@ func features(body []gen.Stmt) (string, map[string]bool) {
 	return strings.Join(ks, "+"), set
 }
 
+func lessInts(a, b []int) bool {
+	for i := 0; i < len(a) && i < len(b); i++ {
+		if a[i] != b[i] {
+			return a[i] < b[i]
+		}
+	}
+	return len(a) < len(b)
+}
+
 func bodyOf(c Case) []gen.Stmt { return gen.Replay(c.Choices, Family(c.Cfg)) }
 
 func replay(path string) {
@@ -294,9 +303,24 @@ func main() {
 	nontrivial := report.NewDistinctSet()
 	for _, cfg := range cfgs {
 		cfg := cfg
-		n := gen.ParallelEnumerate(Family(cfg), 6, func(body []gen.Stmt, ch []int) {
-			choices := append([]int{}, ch...)
-			k := atomic.AddInt64(&nBase, 1)
+		// the decision tree is very unbalanced (most bodies start with a function definition): collect the
+		// choice vectors first (cheap, in parallel), order them, and distribute the bodies evenly
+		var all [][]int
+		var allMu sync.Mutex
+		gen.ParallelEnumerate(Family(cfg), 8, func(body []gen.Stmt, ch []int) {
+			c := append([]int{}, ch...)
+			allMu.Lock()
+			all = append(all, c)
+			allMu.Unlock()
+		})
+		sort.Slice(all, func(i, j int) bool { return lessInts(all[i], all[j]) })
+		n := int64(len(all))
+		fmt.Printf("[%6.1fs] family budget=%d lean=%d: %d bodies enumerated\n", r.Elapsed().Seconds(), cfg.Budget, cfg.Lean, n)
+		report.ParallelFor(len(all), func(idx int) {
+			choices := all[idx]
+			body := gen.Replay(choices, Family(cfg))
+			k := int64(idx)
+			atomic.AddInt64(&nBase, 1)
 			base := execute(Build(body, Variant{Place: "T0"}), "T0")
 			atomic.AddInt64(&nVariants, 1)
 			isNew := distinct.Add(base.src)
